@@ -22,6 +22,9 @@ PKG = 'glom'
 DEFAULT_ROOT = os.environ.get('GLOM_REPO', '/repo')
 
 
+PY2_ONLY_IMPORTS = {('itertools', 'imap'), ('itertools', 'ifilter'), ('itertools', 'izip')}
+
+
 class AnalysisError(Exception):
     """An anchor vanished, a floor was missed or a construct fell outside the
     supported idioms.  Exit code 2, never a VIOLATION."""
@@ -577,6 +580,10 @@ class Program:
             if hasattr(builtins, name):
                 return Builtin(name)
             return Unknown(name)
+        # imports known to fail on Python 3 (the py2 fallbacks glom still carries)
+        live = [b for b in binds if not (b[0] == 'import' and (b[1], b[2]) in PY2_ONLY_IMPORTS)]
+        if live:
+            binds = live
         # prefer func/class/import definitions; else variable
         last = binds[-1]
         kinds = {b[0] for b in binds}
